@@ -63,25 +63,8 @@ def decode(data, max_size, decode_text, eq_rejects=True, compress=False):
                 return msgs, (1002,), True, at_boundary, "control-fragmented"
             if l7 > 125:
                 return msgs, (1002,), True, at_boundary, "control-too-long"
-        p = pos + 2
-        if l7 == 126:
-            if n - p < 2:
-                return msgs, None, False, at_boundary, None
-            plen = data[p] * 256 + data[p + 1]
-            p += 2
-        elif l7 == 127:
-            if n - p < 8:
-                return msgs, None, False, at_boundary, None
-            plen = 0
-            for i in range(8):
-                plen = plen * 256 + data[p + i]
-            p += 8
-            if plen >= 2 ** 63:
-                # 5.2: most significant bit MUST be 0
-                return msgs, (1009, 1002), True, at_boundary, "len64-msb"
-        else:
-            plen = l7
-        # sequencing rules (5.4) are properties of the header
+        # sequencing rules (5.4) are properties of the first header byte: a decoder may report them
+        # before the rest of the header has arrived
         seq_err = False
         # a frame that breaks sequencing may also trip the size cap first
         seq_codes = (1002, 1009) if max_size else (1002,)
@@ -92,6 +75,28 @@ def decode(data, max_size, decode_text, eq_rejects=True, compress=False):
         if opcode in (OP_TEXT, OP_BIN) and frag_op is not None:
             seq_err = True
             seq_rule = "data-frame-inside-fragmented-message"
+        p = pos + 2
+        if l7 == 126:
+            if n - p < 2:
+                if seq_err:
+                    return msgs, seq_codes, True, at_boundary, seq_rule
+                return msgs, None, False, at_boundary, None
+            plen = data[p] * 256 + data[p + 1]
+            p += 2
+        elif l7 == 127:
+            if n - p < 8:
+                if seq_err:
+                    return msgs, seq_codes, True, at_boundary, seq_rule
+                return msgs, None, False, at_boundary, None
+            plen = 0
+            for i in range(8):
+                plen = plen * 256 + data[p + i]
+            p += 8
+            if plen >= 2 ** 63:
+                # 5.2: most significant bit MUST be 0
+                return msgs, (1009, 1002), True, at_boundary, "len64-msb"
+        else:
+            plen = l7
         if max_size and opcode < 8 and not seq_err:
             total = plen + len(frag)
             if total > max_size:
